@@ -1206,6 +1206,13 @@ int32 matrixDtlsGetOutdata(ssl_t *ssl, unsigned char **buf)
  */
     if (ssl->outlen == 0 && ssl->appDataExch == 0)
     {
+        /* A session that has failed or was closed does not send handshake
+           messages any more: nothing to resend */
+        if (ssl->flags & SSL_FLAGS_ERROR || ssl->flags & SSL_FLAGS_CLOSED)
+        {
+            *buf = NULL;
+            return 0;
+        }
 
         /* And now the ugly part.  If we have been receiving records that
            are sent individually and we are successfully midway through an
